@@ -18,6 +18,7 @@ import vfx.nodes
 from vfx import nodes as N
 from vfx.pa import common as pa_common
 from vfx.pb import common as pb_common
+from vfx.pc import auto_config as pc_auto_config
 import libcst as cst
 
 PROP = 'C12'
@@ -27,13 +28,15 @@ TECHNIQUE = ('bounded-exhaustive enumeration of configurations x generator x '
              'each emitted module is compiled, executed and its fixture '
              'compared with the input (translation validation per program)')
 RULE = ('every DAG shape over {Config of functions / classes (incl. modules '
-        'whose names collide, callables named like the fixture or like an '
+        'whose names collide with each other or with fiddle\'s auto_config '
+        'module, callables named like the fixture or like an '
         'import, return-annotated functions, nested classes), Partial, '
         'ArgFactory inside Partial, list, tuple, dict with tuple keys} with '
         'leaves {str, enum, nested enum, type, function}, with / without tags '
         '(all tagged arguments have values) x {new_codegen, '
         'auto_config_codegen} x every subset of <= 2 non-root Buildable nodes '
-        'as sub-fixtures x max_expression_complexity in {None, 0..3} x '
+        'as sub-fixtures (and, for nested sub-fixtures sharing a node, every '
+        'order of the sub-fixture dict) x max_expression_complexity in {None, 0..3} x '
         'include_history; plus every value of the expression alphabet through '
         'convert_py_val_to_cst; a program is a disagreement when it fails to '
         'compile/run or yields a different configuration')
@@ -66,6 +69,7 @@ def kinds():
       'cls': K('cls', 2, True, mk(fdl.Config, N.Mid), True),
       'pa': K('pa', 2, True, mk(fdl.Config, pa_common.make), True),
       'pb': K('pb', 2, True, mk(fdl.Config, pb_common.Thing), True),
+      'pc': K('pc', 2, True, mk(fdl.Config, pc_auto_config.build_thing), True),
       'named_nodes': K('named_nodes', 2, True, mk(fdl.Config, N.nodes), True),
       'named_fixture': K('named_fixture', 2, True, mk(
           fdl.Config, N.config_fixture), True),
@@ -85,7 +89,7 @@ def kinds():
   }
 
 
-FULL = ['cfg', 'cls', 'pa', 'pb', 'named_nodes', 'named_fixture', 'ann', 'annb',
+FULL = ['cfg', 'cls', 'pa', 'pb', 'pc', 'named_nodes', 'named_fixture', 'ann', 'annb',
         'annn', 'inner', 'par', 'parf', 'list2', 'tuple2', 'dict2']
 SMALL = ['cfg', 'pa', 'par', 'list2']
 ROOTS = [k for k in FULL if k not in ('list2', 'tuple2', 'dict2')]
@@ -128,6 +132,32 @@ def subfixture_family():
         B = ('pb', b_slots)                        # node 4
         for root_slots in ((R(3), R(4)), (R(4), R(3))):
           yield (S, W, Y, A, B, ('cfg', root_slots))
+
+
+def nested_subfixture_family():
+  """root -> outer -> {i1, i2} -> S: two sibling sub-fixtures nested in a
+  third one share a node."""
+  U = shapes.UNSET
+  R = lambda j: ('R', j)
+  S = ('cfg', (U, U))                                 # node 0
+  for i1_slots in ((R(0), U), (U, R(0))):
+    for i2_slots in ((R(0), U), (U, R(0))):
+      for outer_slots in ((R(1), R(2)), (R(2), R(1))):
+        yield (S, ('cls', i1_slots), ('pb', i2_slots), ('cfg', outer_slots),
+               ('pa', (R(3), U)))
+
+
+def run_nested_subfixture_family(res):
+  for shape in nested_subfixture_family():
+    res.states += 1
+    res.nontrivial += 1
+    # every order of the sub-fixture dict over {i1, i2, outer} and its pairs
+    for r in (2, 3):
+      for subidx in itertools.permutations((1, 2, 3), r):
+        for gen in GENERATORS:
+          for complexity in (None, 1):
+            res.evals += 1
+            check_one(shape, False, gen, subidx, complexity, False, res)
 
 
 def run_subfixture_family(b, res):
@@ -361,6 +391,7 @@ def run_unit(unit, tier, seed):
     if _KK is None:
       _KK = kinds()
     run_subfixture_family(b, res)
+    run_nested_subfixture_family(res)
   else:
     run_shapes(unit[1], b, res)
   res.counters['programs'] = res.transitions
